@@ -2,7 +2,7 @@
    GENERATED from Properties/src/C02.props by tools/mkprops.py; property theorems only. *)
 From SP Require Import Model.Syntax Model.Scanner.
 From SP Require Import Proofs.PegP Proofs.SyntaxP Proofs.ParseP Proofs.TemplateLaws.
-From SP Require Import Proofs.ArgP Proofs.NumP Proofs.RangeSynP Proofs.OpSynP Proofs.BlockSynP.
+From SP Require Import Proofs.ArgP Proofs.NumP Proofs.RangeSynP Proofs.OpSynP Proofs.RegexSynP Proofs.BlockSynP Proofs.FullSynP.
 
 (* every index and range bound, printed in decimal, is read back exactly *)
 Theorem C02_numbers_roundtrip_isize :
@@ -177,8 +177,70 @@ Check C02_printed_text_means_its_operations :
   bind (template_parse (print_block ops)) (fun t => run_pure (impl_format E t x)) = spec_run E ops x.
 Print Assumptions C02_printed_text_means_its_operations.
 
+(* replace, filter, filter_not, regex_extract: their arguments are RAW text.  For every pattern
+   made of escaped pairs and characters other than : | { } (regex_units), every s/../../ part
+   without a bare / (sed_units), every flag word and every group number in usize, followed by
+   what the grammar's look-aheads require (ctx_top), rule operation and the converter return
+   the operation with pattern, replacement, flags and group unchanged *)
+Theorem C02_regex_operations_at_top_level :
+  forall (o : op) (txt rest : str), spells_regex o txt -> ctx_top o rest ->
+  exists k, run r_operation false (txt ++ rest) = Some (txt, [Node (Some R_operation) txt [k]], rest)
+            /\ parse_operation k = Ok o.
+Proof. exact operation_reads_regex. Qed.
+Check C02_regex_operations_at_top_level :
+  forall (o : op) (txt rest : str), spells_regex o txt -> ctx_top o rest ->
+  exists k, run r_operation false (txt ++ rest) = Some (txt, [Node (Some R_operation) txt [k]], rest)
+            /\ parse_operation k = Ok o.
+Print Assumptions C02_regex_operations_at_top_level.
+
+Theorem C02_regex_operations_inside_map :
+  forall (o : op) (txt rest : str), spells_regex o txt -> ctx_map o rest ->
+  exists k, run r_map_inner_operation false (txt ++ rest) = Some (txt, [Node (Some R_map_inner_operation) txt [k]], rest)
+            /\ parse_map_inner_operation k = Ok o.
+Proof. exact inner_reads_regex. Qed.
+Check C02_regex_operations_inside_map :
+  forall (o : op) (txt rest : str), spells_regex o txt -> ctx_map o rest ->
+  exists k, run r_map_inner_operation false (txt ++ rest) = Some (txt, [Node (Some R_map_inner_operation) txt [k]], rest)
+            /\ parse_map_inner_operation k = Ok o.
+Print Assumptions C02_regex_operations_inside_map.
+
+(* PARSE FIDELITY FOR ALL TWENTY OPERATIONS.  A pipeline is any list of (operation, text) in
+   which each text is a documented way of writing the operation ([written]: every spelling of
+   the text/range operations, the four regex operations, the shorthand, map:{...} over inner
+   spellings).  The one interaction between neighbours is stated, not hidden: a bare regex
+   argument ends at "|" only when an operation keyword follows ([followers_ok]), so the next
+   operation is not written in the digit shorthand.  Then the grammar regenerated from
+   template.pest and the converter of parser.rs return exactly the pipeline written, with the
+   debug flag exactly as written. *)
+Theorem C02_all_operations_all_spellings :
+  forall (dbg : bool) (items : list (op * str)),
+  Forall (fun it => written (fst it) (snd it)) items -> followers_ok items ->
+  parse_template (block_text dbg items) = Ok (ops_of items, dbg).
+Proof. exact written_block_roundtrip. Qed.
+Check C02_all_operations_all_spellings :
+  forall (dbg : bool) (items : list (op * str)),
+  Forall (fun it => written (fst it) (snd it)) items -> followers_ok items ->
+  parse_template (block_text dbg items) = Ok (ops_of items, dbg).
+Print Assumptions C02_all_operations_all_spellings.
+
+(* ... and the template constructor builds one section with exactly those operations (braces
+   inside s/../../ parts must balance for the single-block shortcut: balanced_item) *)
+Theorem C02_all_operations_template_object :
+  forall (dbg : bool) (items : list (op * str)),
+  Forall (fun it => written (fst it) (snd it)) items -> followers_ok items -> Forall balanced_item items ->
+  template_parse (block_text dbg items)
+  = Ok {| t_raw := block_text dbg items; t_sections := [Sec (ops_of items)]; t_debug := dbg |}.
+Proof. exact template_of_written_block. Qed.
+Check C02_all_operations_template_object :
+  forall (dbg : bool) (items : list (op * str)),
+  Forall (fun it => written (fst it) (snd it)) items -> followers_ok items -> Forall balanced_item items ->
+  template_parse (block_text dbg items)
+  = Ok {| t_raw := block_text dbg items; t_sections := [Sec (ops_of items)]; t_debug := dbg |}.
+Print Assumptions C02_all_operations_template_object.
+
 (* non-vacuity: a pipeline mixing spellings satisfies the premises *)
 Check spelled_example.
+Check written_example.
 
 (* the spellings of the documentation, evaluated by the kernel on the regenerated grammar *)
 Definition cps (l : list N) : str := l.
